@@ -328,7 +328,10 @@ def apply_obj_op(obj, kind, op, fx, D_of):
         return obj.fit(X, **({"skew": bool(op.get("skew", True))} if kind == "imager" else {})), [X]
     if op["m"] == "transform":
         X = D_of(op)
-        return obj.transform(X, **({"skew": bool(op.get("skew", True))} if kind == "imager" else {})), [X]
+        kw = {"skew": bool(op.get("skew", True))} if kind == "imager" else {}
+        if kind == "imager" and op.get("n_jobs") is not None:
+            kw["n_jobs"] = int(op["n_jobs"])          # runs under SimParallel in the simulated world
+        return obj.transform(X, **kw), [X]
     if op["m"] == "fit_transform":
         X = D_of(op)
         return obj.fit_transform(X, **({"skew": bool(op.get("skew", True))} if kind == "imager" else {})), [X]
@@ -379,6 +382,9 @@ def build_obj_call(spec, fx, objects, D):
         return call, ([pre] if pre is not None else []), None
 
     def ref_call():
+        # alone in a fresh process the call is made serially: n_jobs only changes *how* the same images are computed
+        nonlocal op
+        op = {k_: v for k_, v in op.items() if k_ != "n_jobs"}
         o = ctor()
         for pre in spec.get("prefix") or []:
             try:
